@@ -316,6 +316,8 @@ LIST_TPL = {
     # regions whose last byte lies inside a multi-byte character (end of an unwrap wrapper line) and multi-byte text around the tags
     'unwrap-wrapper-lines-end-multibyte': ["A\n", O('m', RX + ' unwrap-block'), "\nif (x) { // 公開", H(1, 'nb'), "\n  k;\n} // 終了", H(1, 'txt'), "\n", C('m'), "\nB\n"],
     'multibyte-around-tags': ["日本語", H(1, 'txt'), O('m', RX), "削除", C('m'), "語", H(1, 'txt'), "\né ", O('t', RT), "\nq\n", C('t'), "é\n"],
+    # unwrap blocks that cannot be unwrapped because a single (empty) line lies between their tags: not listed, neither Ready nor Pending
+    'nonunwrappable-single-empty-line': ["A\n", O('m', PN + ' unwrap-block'), "\n", H(1, 'ind'), "\n", C('m'), "\n", O('t', RT + ' unwrap-block'), "\n\n", C('t'), "\nB\n", O('t', RT), "r", C('t'), H(1, 'txt'), "\n"],
     'leading-line-break': ["\n", H(1, 'ind'), "A\n", O('m', RX), "\nr\n", C('m'), "\nB\n"],
 }
 
@@ -337,6 +339,18 @@ def list_jobs(hname):
                 continue  # C15 quantifies over files whose first byte is not a line break
             for sizes in variants(tpl, budget, 2, rnd, 2 if tier == 'quick' else 10):
                 jobs.append(dict(harness=hname, label=f'{name} holes={sizes}', params=dict(tpl=instantiate(tpl, sizes))))
+        # the same documents bent by the template transformers of props_pipe (ends with the last tag, multi-byte text, inside a skipped element, ...)
+        from props_pipe import TRANSFORMERS
+        rnd_t = random.Random(seed * 31 + 5)
+        combos = [(n, t) for n in sorted(base) for t in sorted(TRANSFORMERS) if not (hname == 'c15_list' and n.startswith('leading-line-break'))]
+        if tier == 'quick':
+            combos = rnd_t.sample(combos, 24)
+        for n, t in combos:
+            tpl = TRANSFORMERS[t](base[n])
+            if not tpl:
+                continue
+            for sizes in variants(tpl, budget, 2, rnd_t, 1):
+                jobs.append(dict(harness=hname, label=f'{n} [{t}] holes={sizes}', params=dict(tpl=instantiate(tpl, sizes))))
         # multi-byte delimiters: the last byte of a default-strategy region is then inside a character as well
         for name in ('pending-siblings-then-ready', 'inline-two-on-a-line', 'unwrap-wrapper-lines-end-multibyte') + (() if tier == 'quick' else ('adjacent-inline', 'tabs-and-columns')):
             if name in base:
